@@ -89,7 +89,7 @@ def run_sem(pid, fmt):
     if fmt == "cbor":
         # CBOR-only constructs (tags, major types, non-text keys, big numbers), and encoding independence: a third of the
         # documents is encoded with random non-preferred choices (argument widths, indefinite lengths, float widths)
-        cases += semcheck.gen_pairs(rnd, fmt, n_schemas, profile="cborx")
+        cases += semcheck.gen_pairs(rnd, fmt, n_schemas // 2, profile="cborx")
         for c in cases:
             if rnd.random() < 0.33:
                 c["bytes"] = list(C.encode(c["val"], C.Choices(rnd, p=rnd.choice([0.3, 0.7]))))
